@@ -1051,6 +1051,9 @@ def c03(ck):
                    workers=4, timeout=900)
     util.mc_design(ck, "Ptrace", "MC_Ptrace_slow", "the same model with a thread that sits in vfork() when the dump starts (takes no signal and reports no stop until it wakes, at any moment): the attach is followed by a wait of unknown length; same invariants and liveness",
                    workers=4, timeout=900)
+    if not quick:
+        util.mc_design(ck, "Ptrace", "MC_Ptrace_slow_thorough", "the same with thread exits, a sandbox thread and two stream steps", workers=6, timeout=1800)
+        util.mc_design(ck, "Ptrace", "MC_Ptrace_slow4", "four threads: the leader, one in vfork(), one ordinary, one sandbox thread", workers=6, timeout=1800)
     # (a) the attach race under a signal flood, on the public suspend_thread / resume_thread
     fout = os.path.join(ck.work, "flood.ndjson")
     core.drive("flood", fout, seed=ck.seed, random=3000 if quick else 20000, extra=["--rounds", "2" if quick else "8", "--workdir", ck.work], timeout=2400)
